@@ -3,7 +3,7 @@
 # Confirms, in the scratch worktree (never /repo): patch applies, builds, stable tests pass, demo runs on patched and unpatched builds.
 wt=$1; cand=$2
 mkdir -p $cand/confirm
-cd $wt || exit 2
+cd $wt || exit 2; export WT=$wt
 git checkout -q -- . ; git clean -qfd -e target >/dev/null 2>&1
 cargo build --offline >/dev/null 2>&1
 ( RUST_BACKTRACE=0 bash $cand/demo.sh ) > $cand/confirm/demo_unpatched.txt 2>&1
